@@ -90,6 +90,28 @@ func c09Generate(seed uint64, tier string, index int) json.RawMessage {
 		p.Cfg.MaxFaults = r.Range(1, 5)
 		p.Cfg.FaultPermille = map[string]int{simstore.AltCasMiss: 100, simstore.AltFeedDedup: 100, simstore.AltFeedRedeliver: 120}
 	}
+	if index%8 == 3 && !extOnly {
+		// directed flavour: no automatic import; reads import on demand while the other application keeps writing the
+		// same document, so that an external write lands between the read and the write of an import (the import then
+		// has to start over from the newer external state); the revision cache keeps what the import produced
+		for i := range p.Nodes {
+			p.Nodes[i].AutoImport = false
+			p.Nodes[i].RevCacheSize = -1
+		}
+		p.Tasks = nil
+		var ext, rd []c09Op
+		for i := 0; i < r.Range(2, 5); i++ {
+			ext = append(ext, c09Op{Kind: "extset", Doc: 0})
+		}
+		for i := 0; i < r.Range(2, 5); i++ {
+			rd = append(rd, c09Op{Kind: "get", Doc: 0, Node: r.Intn(nn)})
+		}
+		p.Tasks = [][]c09Op{ext, rd}
+		if r.Chance(500) {
+			p.Tasks = append(p.Tasks, []c09Op{{Kind: "get", Doc: 0, Node: r.Intn(nn)}, {Kind: "put", Doc: 0, Node: r.Intn(nn)}, {Kind: "get", Doc: 0, Node: r.Intn(nn)}})
+		}
+		p.Cfg.MaxFaults, p.Cfg.FaultPermille = 0, nil
+	}
 	if index%8 == 5 {
 		// directed flavour: the gateway's own metadata-only rewrites (CAS re-stamp after a retried write, forced
 		// resync rewrite) on one document, no external writer at all: nothing may ever be imported
